@@ -27,7 +27,7 @@ def jobs(pid, tier):
         J.append(Job('k7_swap', dict(N=4, L=2, x=0, K=2), need_outcomes=['swapped']))
         J.append(Job('k8_gc', dict(N=4, L=2, roots=0, nondet=True), need_outcomes=['collected']))
         J.append(Job('k9_undeclare', dict(N=4, L=3), need_outcomes=['removed', 'refused']))
-        J.append(Job('k10_addvar', dict(N=4, L=2), need_outcomes=['added', 'idempotent', 'refused']))
+        J.append(Job('k10_addvar', dict(N=4, L=2, via=['bdd', 'autoref']), need_outcomes=['added', 'idempotent', 'refused']))
         # other construction routes (every route gives the canonical reference)
         J.append(Job('let', dict(N=3, L=3, kinds=['rename']), need_outcomes=['returned:rename']))
         J.append(Job('copy', dict(N=4, L=3, NT=2, extra=0, variants=['copy_bdd']), need_outcomes=['returned:copy_bdd']))
@@ -170,7 +170,7 @@ def jobs(pid, tier):
             J.append(Job('image', dict(N=3, L=3, maxpairs=1, styles=['names']),
                          need_outcomes=['returned:preimage', 'returned:image', 'returned:image_nonadjacent']))
     if pid == 'C14':
-        J.append(Job('k10_addvar', dict(N=4, L=2), need_outcomes=['added', 'idempotent', 'refused']))
+        J.append(Job('k10_addvar', dict(N=4, L=2, via=['bdd', 'autoref']), need_outcomes=['added', 'idempotent', 'refused']))
         J.append(Job('k10_addvar', dict(N=4 if q else 5, L=3), need_outcomes=['added', 'idempotent', 'refused']))
         J.append(Job('k9_undeclare', dict(N=4, L=3), need_outcomes=['removed', 'nothing_removed', 'refused']))
         J.append(Job('k9_undeclare', dict(N=3 if q else 5, L=4 if q else 3), need_outcomes=['removed', 'refused']))
